@@ -257,6 +257,38 @@ def dftkernel_checks(ck, rng):
                 continue
             if mode == "NPOL" and nspin == 2 and np.abs(X1 - X1s).max() > 1e-13:
                 ck.violation("dftkernel:NPOL:not-spin-symmetric", {})
+        # ---- covariance of the control points (what MOLGP factorises): symmetric PSD, equal to the kernel between the same
+        # points (get_k), for POL equal to the closed form k_aa k_bb + k_ab k_ba and invariant under exchange of the spin
+        # labels of ALL control points; spin-POLARISED control points (the two channels differ)
+        for nctrl in (2, 7):
+            X0Tc = rng.uniform(0.1, 2.0, size=(2, 4, nctrl))
+            ck.count(key=("dftkernel-kctrl", mode, nctrl))
+            try:
+                dk.set_control_points([X0Tc], reduce=False)
+                Kmm = np.array(dk.get_kctrl())
+                Kx = np.array(dk.get_k(X0Tc))
+                dk.set_control_points([X0Tc[::-1].copy()], reduce=False)
+                Kswap = np.array(dk.get_kctrl())
+            except Exception as ex:
+                ck.violation("dftkernel:%s:kctrl:%s" % (mode, type(ex).__name__), {"msg": str(ex)[:200]})
+                continue
+            sc = 1 + np.abs(Kmm).max()
+            if np.abs(Kmm - Kmm.T).max() > 1e-12 * sc:
+                ck.violation("dftkernel:%s:kctrl-not-symmetric" % mode, {"nctrl": nctrl, "asym": float(np.abs(Kmm - Kmm.T).max())})
+                continue
+            w = np.linalg.eigvalsh(0.5 * (Kmm + Kmm.T))
+            if w.min() < -1e-9 * max(1.0, np.abs(w).max()):
+                ck.violation("dftkernel:%s:kctrl-not-psd" % mode, {"nctrl": nctrl, "min_eig": float(w.min())})
+            if mode == "POL":
+                X1c = dk.get_descriptors(X0Tc).reshape(2, nctrl, -1)
+                kaa, kbb, kab, kba = kern(X1c[0], X1c[0]), kern(X1c[1], X1c[1]), kern(X1c[0], X1c[1]), kern(X1c[1], X1c[0])
+                ref = kaa * kbb + kab * kba
+                if np.abs(Kmm - ref).max() > 1e-12 * sc:
+                    ck.violation("dftkernel:POL:kctrl-differs-from-closed-form", {"nctrl": nctrl, "err": float(np.abs(Kmm - ref).max())})
+                if np.abs(Kmm - Kswap).max() > 1e-12 * sc:
+                    ck.violation("dftkernel:POL:kctrl-not-invariant-under-spin-exchange", {"nctrl": nctrl})
+                if Kx.shape == Kmm.shape and np.abs(Kx - Kmm.T).max() > 1e-12 * sc:
+                    ck.violation("dftkernel:POL:kctrl-differs-from-get_k-at-the-control-points", {"nctrl": nctrl, "err": float(np.abs(Kx - Kmm.T).max())})
 
 
 def worker(job):
